@@ -273,6 +273,18 @@ def oracle(w: Any, params: Any) -> List[dict]:
         else:
             if len(reqs) < min(n, allowed):
                 out.append(V("under-limit-refused", tag, f"{len(reqs)} instances, {n} pipelined requests, allowed {allowed}"))
+        # every request that was taken on is answered completely ("served"), including the last allowed one
+        if mode == "h2":
+            for i, inst in enumerate(reqs):
+                sid = 1 + 2 * int(inst.scope["path"][2:])
+                st = rec.client.h2.streams.get(sid)
+                if st is None or not st["ended"] or st["body"] != b"ok" or st["status"] != 200:
+                    out.append(V("served-request-truncated", tag, f"request {i} (stream {sid}) reached the application but its response is {st}"))
+        else:
+            rs = rec.client.h1.responses
+            for i, inst in enumerate(reqs):
+                if i >= len(rs) or not rs[i]["complete"] or rs[i]["body"] != b"ok":
+                    out.append(V("served-request-truncated", tag, f"request {i} reached the application but its response is incomplete"))
         if n >= allowed and len(reqs) >= allowed:
             if mode == "h2":
                 if rec.client.h2.goaway is None:
